@@ -39,11 +39,16 @@ def main(tier):
                     continue
                 casts.append((f["key"], s["rv"]["ck"], s["place"]["l"], bi))
     fns = sorted({c[0] for c in casts})
-    run.ob("pure", "pointer->integer casts occur only in Arena::get_node_id: %s" % fns, set(fns) <= {"crate::arena::Arena<T>::get_node_id"},
-           key="pure|address observed in %s" % ",".join(k for k in fns if not k.endswith("::get_node_id")), detail=casts, nontrivial="casts", sample=True)
-    g = prog.fns.get("crate::arena::Arena<T>::get_node_id")
-    if g is not None:
-        ls = {c[2] for c in casts if c[0] == g["key"]}
+    GNI = "crate::arena::Arena<T>::get_node_id"
+    cidx = rules.Index(prog)
+    stray = [k for k in fns if not cidx.gated(k, {GNI})]
+    run.ob("pure", "pointer->integer casts occur only in Arena::get_node_id (or private helpers reachable only through it): %s" % fns, not stray,
+           key="pure|address observed in %s" % ",".join(stray), detail=casts, nontrivial="casts", sample=True)
+    for gk in fns:
+        g = prog.fns.get(gk)
+        if g is None or gk in stray:
+            continue
+        ls = {c[2] for c in casts if c[0] == gk}
         uses = []
         for bi, si, s in prog.stmts(g):
             if s["k"] == "assign":
@@ -56,7 +61,7 @@ def main(tier):
                 if o.get("k") in ("copy", "move") and o["place"]["l"] in ls and not o["place"]["p"]:
                     uses.append((t["k"], t.get("msg")))
         ok = all(u in (("binop", "SubWithOverflow"), ("binop", "Sub"), ("assert", "Overflow(Sub)")) for u in uses) and len(ls) == 2
-        run.ob("pure", "the two addresses in get_node_id flow only into their difference", ok, key="pure|an address in get_node_id is used other than in `p - start`", detail=uses, nontrivial="addr-use")
+        run.ob("pure", "the two addresses in %s flow only into their difference" % gk.rsplit("::", 1)[-1], ok, key="pure|an address in get_node_id is used other than in `p - start`", detail=uses, nontrivial="addr-use")
     # ---- plain values
     for tp in TYPES:
         short = tp.split("::")[-1]
